@@ -363,4 +363,11 @@ def block_modset(V, fnkey, blocks):
                 nm = nm.rsplit('.', 1)[-1]
                 if nm:
                     out.add(('ghost', 'ncalls_' + nm, z3.IntSort()))
+    if c is not None:
+        # an inner loop is entered once per iteration of the enclosing one: its entry counter is loop-modified
+        from .symex import cfg_of
+        bs_ = set(blocks)
+        for h_, l_ in cfg_of(V.world.prog, fnkey)['loops'].items():
+            if h_ in bs_ and set(l_['body']) < bs_:
+                out.add(('ghost', 'entered_L%d' % l_['ordinal'], z3.IntSort()))
     return out
